@@ -59,14 +59,18 @@
 /* ---- whole values: an arbitrary well-formed snapshot / schema-2.x track row (harness side) and the same as the fresh result
  * of a contract stub.  Vectors have arbitrary sizes and arbitrary elements; the strings inside vector elements are made valid
  * for the ghost element verif_g2 only (facts are stated for that element only). */
-#define TRK_ANYVEC(v, maxn) { (v).size = nondet_size_t(); __CPROVER_assume((v).size <= (maxn)); (v).cap = (v).size ? (v).size : 1; \
+/* (the capacity is angelic: any value from the size up to size + 64, so that code which GROWS the vector - resize, push_back -
+ * is not cut off by the abstract model's "storage never moves" assumption n <= cap) */
+#define TRK_ANYVEC(v, maxn) { (v).size = nondet_size_t(); __CPROVER_assume((v).size <= (maxn)); (v).cap = nondet_size_t(); \
+  __CPROVER_assume((v).cap >= (v).size && (v).cap >= 1 && (v).cap <= (v).size + 64); \
   (v).data = malloc((v).cap * sizeof(*(v).data)); __CPROVER_assume((v).data != 0); }
 /* the value a table accessor hands out (or stores) is a COPY of the column: fresh storage of the same size that agrees with the
  * source at the two ghost positions (the only elements contracts speak about).  Without this the fetched blob would alias the
  * ghost column and an in-place change of an element would also change the "old" value it is compared with. */
-#define VEC_GHOST_COPY(dst, src) { __typeof__((src).data) __d = malloc(((src).size ? (src).size : 1) * sizeof(*(src).data)); __CPROVER_assume(__d != 0); \
+#define VEC_GHOST_COPY(dst, src) { size_t __c = nondet_size_t(); __CPROVER_assume(__c >= (src).size && __c >= 1 && __c <= (src).size + 64); \
+  __typeof__((src).data) __d = malloc(__c * sizeof(*(src).data)); __CPROVER_assume(__d != 0); \
   if (verif_g < (src).size) __d[verif_g] = (src).data[verif_g]; if (verif_g2 < (src).size) __d[verif_g2] = (src).data[verif_g2]; \
-  (dst).size = (src).size; (dst).cap = (src).size ? (src).size : 1; (dst).data = __d; }
+  (dst).size = (src).size; (dst).cap = __c; (dst).data = __d; }
 #define SNAPSHOT_ANY(s) { ANYOPTSTR((s)->album) ANYOPTSTR((s)->artist) ANYOPTSTR((s)->comment) ANYOPTSTR((s)->composer) ANYOPTSTR((s)->genre) \
   ANYOPTSTR((s)->publisher) ANYOPTSTR((s)->relative_path) ANYOPTSTR((s)->title) \
   TRK_ANYVEC((s)->beatgrid, 1 << 24) TRK_ANYVEC((s)->hot_cues, 1 << 20) TRK_ANYVEC((s)->loops, 1 << 20) TRK_ANYVEC((s)->waveform, 1 << 24) \
